@@ -26,7 +26,7 @@ ANCHORS = ['numdifftools.finite_difference:LogRule._fd_matrix', 'numdifftools.fi
            'numdifftools.finite_difference:LogRule._flip_fd_rule', 'numdifftools.finite_difference:LogRule.richardson_step',
            'numdifftools.finite_difference:LogRule.method_order', 'numdifftools.finite_difference:LogRule._apply',
            'numdifftools.core:Derivative.set_richardson_rule']
-MIN_COUNTERS = dict(quick={'moments_asserted': 10000, 'end_to_end_asserted': 30000, 'pairing_asserted': 1500,
+MIN_COUNTERS = dict(quick={'moments_asserted': 10000, 'end_to_end_asserted': 30000, 'pairing_asserted': 1500, 'pairing_after_switch_asserted': 1200,
                            'leading_power_asserted': 1500, 'parity_class:0': 100, 'parity_class:1': 50,
                            'parity_class:2': 50, 'parity_class:3': 20, 'parity_class:4': 20, 'parity_class:5': 20,
                            'parity_class:6': 20, 'flipped_rules': 100},
@@ -238,6 +238,30 @@ def run_case(case, ctx):
             return
     except Exception as exc:
         ctx.count('pairing_call_raised:%s' % type(exc).__name__)
+    # the same configuration reached through the setters of an object that has already been used with another
+    # method (and possibly another order): the Richardson stage must be the one paired with the rule it now applies
+    prng = np.random.default_rng(int(case.get('seed', 0)) + 17 * n + order)
+    try:
+        m0 = str(prng.choice([m for m in ('central', 'forward', 'backward', 'complex') if m != method]))
+        o0 = order if prng.random() < 0.6 else int(prng.integers(1, 9))
+        dsw = nd.Derivative(np.exp, method=m0, n=n, order=o0, step=nd.MinStepGenerator(
+            base_step=0.25, step_ratio=ratio, num_steps=T + 12))
+        try:
+            dsw(0.5)
+        except Exception:
+            pass
+        dsw.method = method
+        if o0 != order:
+            dsw.order = order
+        dsw(0.5)
+        rich = dsw.richardson
+        ctx.count('pairing_after_switch_asserted')
+        if int(rich.order) != surviving[0] or any((p - int(rich.order)) % int(rich.step) for p in surviving):
+            ctx.reject('richardson_not_matched_to_surviving_powers', observed=[int(rich.order), int(rich.step)],
+                       expected=surviving[:4], detail=dict(reached_by='setters', from_method=m0, from_order=o0))
+            return
+    except Exception as exc:
+        ctx.count('pairing_after_switch_call_raised:%s' % type(exc).__name__)
     # ---- (b) end to end through the real diff + apply -------------------------------------------
     nsteps = T + 2
     h0 = 0.5
